@@ -207,6 +207,9 @@ class ILock:
         self.count -= 1
         if self.count == 0:
             self.owner = None
+            # the instant after a lock is released is a preemption point of its own: what the releasing thread
+            # does next (outside the lock) may interleave with whoever takes the lock now
+            self.sched.point(("released", self.name))
 
     def locked(self):
         return self.owner is not None
